@@ -85,6 +85,9 @@ def main(spec_path, out_path):
         from pynguin.generator import run_pynguin, set_configuration
 
         set_configuration(cfg)
+        if os.environ.get("VERIF_SELFTEST_PATCH"):  # self-test only: seeded break applied by monkeypatching
+            _p = os.environ["VERIF_SELFTEST_PATCH"]
+            exec(compile(Path(_p).read_text(), _p, "exec"), {"__name__": "selftest_patch"})  # noqa: S102
         mons = [importlib.import_module(m) for m in spec.get("monitors", [])]
         for m in mons:
             m.install(events, spec)
